@@ -48,15 +48,30 @@ FloatInts == { FromInt(0), FromInt(1), FromInt(-3), Pow2(24), Inc(Pow2(24)), Add
 IsScalar(v) == ~v.neg /\ (Cmp(v, FromInt(55295)) <= 0 \/ (Cmp(v, FromInt(57344)) >= 0 /\ Cmp(v, FromInt(1114111)) <= 0))
 CodeVals == { FromInt(97), FromInt(233), FromInt(26085), FromInt(-1), FromInt(55296), FromInt(1114112), Add(Pow2(32), FromInt(98)), Pow2(31), FromInt(0) }
 CodeLists == { <<x>> : x \in CodeVals } \cup { <<FromInt(97), x>> : x \in CodeVals } \cup { <<x, FromInt(98), FromInt(99)>> : x \in CodeVals }
+\* The count of placeholders and arguments. A text is a first term holding np '?' and a trailer after its end token; the entry
+\* points that read ONE term (Query, QuerySolution) must refuse it iff np differs from the number of arguments, whatever the trailer
+\* is (they never read it); Exec reads the whole text: a mismatch with the total count is an error; when the counts agree and all
+\* the placeholders are in the first clause it must load (the counts agree but the placeholders are spread over several clauses:
+\* the implementation refuses that, too - consumed per clause -, and the property leaves it open).
+Trailers == { [id |-> "none", nph |-> 0, valid |-> TRUE], [id |-> "layout", nph |-> 0, valid |-> TRUE], [id |-> "comment", nph |-> 0, valid |-> TRUE],
+              [id |-> "clause", nph |-> 0, valid |-> TRUE], [id |-> "clause1", nph |-> 1, valid |-> TRUE], [id |-> "clause2", nph |-> 2, valid |-> TRUE],
+              [id |-> "line", nph |-> 0, valid |-> TRUE], [id |-> "broken", nph |-> 0, valid |-> FALSE] }
+Entries == {"query", "solution", "exec"}
+CountCases == [np : 0..2, na : 0..3, tr : Trailers, entry : Entries]
+CountVerdict(cc) == IF cc.entry # "exec" THEN (IF cc.np = cc.na THEN "ok" ELSE "error")
+                    ELSE IF ~cc.tr.valid \/ cc.np + cc.tr.nph # cc.na THEN "error"
+                    ELSE IF cc.tr.nph = 0 THEN "ok" ELSE "open"
 VARIABLES kind, val, dq, w, done
 vars == <<kind, val, dq, w, done>>
 Init == \/ kind = "value" /\ val \in Values /\ dq \in DQ /\ w = 0 /\ done = FALSE
         \/ kind = "scanint" /\ val \in AllInts /\ dq = "codes" /\ w \in Widths /\ done = FALSE
         \/ kind = "scanfloat" /\ val \in FloatInts /\ dq = "codes" /\ w \in FloatDests /\ done = FALSE
         \/ kind = "scanstr" /\ val \in CodeLists /\ dq \in DQ /\ w = 0 /\ done = FALSE
+        \/ kind = "count" /\ val \in CountCases /\ dq = "codes" /\ w = 0 /\ done = FALSE
 Next == ~done /\ done' = TRUE /\ UNCHANGED <<kind, val, dq, w>>
 Spec == Init /\ [][Next]_vars
-Emit == done => PrintT("CASE " \o ToJson(IF kind = "scanstr" THEN [kind |-> kind, codes |-> val, dq |-> dq, valid |-> \A i \in 1..Len(val) : IsScalar(val[i])]
+Emit == done => PrintT("CASE " \o ToJson(IF kind = "count" THEN [kind |-> kind, np |-> val.np, na |-> val.na, trailer |-> val.tr.id, entry |-> val.entry, verdict |-> CountVerdict(val)]
+                                          ELSE IF kind = "scanstr" THEN [kind |-> kind, codes |-> val, dq |-> dq, valid |-> \A i \in 1..Len(val) : IsScalar(val[i])]
                                           ELSE IF kind = "value" THEN [kind |-> kind, val |-> val, dq |-> dq, term |-> ToTerm(val, dq)]
                                           ELSE [kind |-> kind, v |-> val, w |-> w, fits |-> IF kind = "scanint" THEN Fits(val, w) ELSE Representable(val, w)]))
 \* --- laws ---
